@@ -76,7 +76,7 @@ def run(facts, res):
                 oks = [ob for ob, _ in assigns_of_return(b, "Ok") if ob in reach and not cfg.dominates(cfg.edge_nodes[(gb, 0)], ob)]
                 if oks:
                     res.violation("G1", "%s|staged-branch-returns-ok" % name, "%s can return Ok on the has_staging() == true branch" % name, b.loc())
-    res.floor("G1", "state-writing call sites in reload/refresh/reload_until", n1, 15)
+    res.floor("G1", "state-writing call sites in reload/refresh/reload_until", n1, 6)
 
     # ------------------------------------------------------------------ G2
     c = facts.body("melda::Melda::commit")
@@ -220,7 +220,7 @@ def run(facts, res):
                 if ar is not None:
                     rpos.setdefault(ar, {}).setdefault("uuid", set()).update(tables.index_consts(arg_term(rp, t, 1, 30)))
         res.instance("G4", "stage record layout written %s / replayed %s; replayed revisions staged: %s (%d add sites)" % (wpos, rpos, staged_ok, n_add), rp.loc())
-        res.floor("G4", "RevisionTree::add sites in replay_stage", n_add, 4)
+        res.floor("G4", "RevisionTree::add sites in replay_stage", n_add, 2)
         if not staged_ok:
             res.violation("G4", "replay-not-staged", "replay_stage adds a revision with staging = false", rp.loc())
         for n, tags in wpos.items():
@@ -316,7 +316,7 @@ def run(facts, res):
                     res.instance("G5", "%s initialises %s.staging from %s" % (b.path, stt.rv.j["adt"].rsplit("::", 1)[-1], fmt(t, 3)), b.loc(stt.line))
                     if not ok:
                         res.violation("G5", "%s|staging-flag-init" % b.path, "%s initialises a staging flag from %s" % (b.path, fmt(t, 3)), b.loc(stt.line))
-    res.floor("G5", "staging flag writes / initialisers", n5, 6)
+    res.floor("G5", "staging flag writes / initialisers", n5, 3)
     # commit clears the tree flag only after clearing every entry flag; unstage after dropping every staged entry
     for fn, pre in (("revisiontree::RevisionTree::commit", "values_mut"), ("revisiontree::RevisionTree::unstage", "retain")):
         b = facts.body(fn)
